@@ -57,6 +57,12 @@ def run(rep, work, tier, seed):
     poly = dict(NTasks=1, N=2, MaxOps=6, MaxRec=3, MaxT=0, MTypes=["CatSub", "Last"], Kinds=["s"], Prep=False, Threads=False, Bug="none")
     leg_r(rep, work, SPEC, f"poly_conf_{tier}", cfg_text(poly, invariants=INVS), lambda: MetricsDriver(["CatSub", "Last"]),
           internal=INTERNAL, world=True)
+    # a scope opened - and recorded into - by a task that inherited a scope which has meanwhile been LEFT by its owner and only
+    # waits for another nested scope to be left: it is nested there all the same, its values show in the merged view (needs
+    # three tasks and nine operations; sync scopes, one record)
+    latenest = dict(NTasks=3, N=3, MaxOps=8, MaxRec=1, MaxT=0, MTypes=["Cat"], Kinds=["s"], Prep=False, Threads=False, Bug="none")
+    leg_r(rep, work, SPEC, f"late_nested_conf_{tier}", cfg_text(latenest, invariants=INVS), lambda: MetricsDriver(["Cat"]),
+          internal=INTERNAL, world=True)
     # a merge function that is NOT associative, the same metric type at three levels of nesting: the grouping of the merged
     # view (each nested scope's own merged view is folded in as one value) shows
     mix = dict(NTasks=1, N=3, MaxOps=7, MaxRec=3, MaxT=0, MTypes=["Mix"], Kinds=["s"], Prep=False, Threads=False, Bug="none")
